@@ -174,8 +174,7 @@ def _scenario(res, seq, use_vpc, segspec, pooling, failing, label, own_hasher, o
     def v(key, msg):
         viol.append((key, msg))
 
-    class _T:
-        time = staticmethod(w.clock.time)
+    _T = w.clock.module_shim()
     saved = hashmod.time
     hashmod.time = _T
     import pymemcache.client.ext.aws_ec_client as awsmod
